@@ -16,8 +16,16 @@ import (
 type refCfg struct {
 	libIsClient bool
 	suite       uint16
-	auth        bool // client certificate requested (and sent by the client)
-	tls         bool // standard TLS 1.2 path (RSA key exchange) instead of GMSSL
+	auth        bool   // client certificate requested (and sent by the client)
+	tls         bool   // standard TLS path (RSA key exchange) instead of GMSSL
+	ver         uint16 // TLS version when tls is set (0 = TLS 1.2)
+}
+
+func (r refCfg) version() uint16 {
+	if r.ver != 0 {
+		return r.ver
+	}
+	return 0x0303
 }
 
 func (r refCfg) String() string {
@@ -26,7 +34,7 @@ func (r refCfg) String() string {
 		role = "library-client"
 	}
 	if r.tls {
-		role = "tls12/" + role
+		role = fmt.Sprintf("tls%04x/", r.version()) + role
 	}
 	return fmt.Sprintf("%s/%04x/client-auth=%v", role, r.suite, r.auth)
 }
@@ -47,7 +55,7 @@ func (r refCfg) identity() gmref.Identity {
 
 func (r refCfg) setup(q *gmref.Peer) {
 	if r.tls {
-		q.UseTLS()
+		q.UseTLSVersion(r.version())
 	}
 	q.Suites = []uint16{r.suite}
 	q.RequestCert = r.auth
@@ -68,13 +76,13 @@ func (r refCfg) libConfig() *gmtls.Config {
 	p := tlsk.Get()
 	if r.tls {
 		if r.libIsClient {
-			c := &gmtls.Config{RootCAs: p.StdRootsG, ServerName: tlsk.ServerName, Time: tlsk.FixedTime, Rand: wire.NewRand(21), CipherSuites: []uint16{r.suite}, MinVersion: 0x0303, MaxVersion: 0x0303}
+			c := &gmtls.Config{RootCAs: p.StdRootsG, ServerName: tlsk.ServerName, Time: tlsk.FixedTime, Rand: wire.NewRand(21), CipherSuites: []uint16{r.suite}, MinVersion: r.version(), MaxVersion: r.version()}
 			if r.auth {
 				c.Certificates = []gmtls.Certificate{p.StdClient}
 			}
 			return c
 		}
-		s := &gmtls.Config{Certificates: []gmtls.Certificate{p.RSA}, Time: tlsk.FixedTime, Rand: wire.NewRand(22), CipherSuites: []uint16{r.suite}, MinVersion: 0x0303, MaxVersion: 0x0303}
+		s := &gmtls.Config{Certificates: []gmtls.Certificate{p.RSA}, Time: tlsk.FixedTime, Rand: wire.NewRand(22), CipherSuites: []uint16{r.suite}, MinVersion: r.version(), MaxVersion: r.version()}
 		if r.auth {
 			s.ClientAuth, s.ClientCAs = gmtls.RequireAndVerifyClientCert, p.StdRootsG
 		}
@@ -465,6 +473,63 @@ func refNPNUnit(suite uint16) harness.Unit {
 	}}
 }
 
+// refUnofferedSuiteUnit: a keyed server that selects a cipher suite the ClientHello did not offer and
+// then carries the whole handshake through consistently under that suite. The client must refuse the
+// ServerHello. Cases: the other suite of the profile (GMSSL, TLS 1.2), and on TLS 1.0 / 1.1 a suite
+// that the client has configured but could not offer at that version (AES-128-GCM).
+func refUnofferedSuiteUnit() harness.Unit {
+	return harness.Unit{Name: "scripted-peer-unoffered-suite", Run: func(c *harness.Ctx) {
+		p := tlsk.Get()
+		type cs struct {
+			name          string
+			tls           bool
+			ver           uint16
+			configured    []uint16 // client configuration
+			serverSelects uint16
+			offered       bool // control: the selected suite WAS offered
+		}
+		cases := []cs{
+			{"GMSSL client offering CBC, server selects GCM", false, 0x0101, []uint16{gmref.SuiteCBC}, gmref.SuiteGCM, false},
+			{"GMSSL client offering GCM, server selects CBC", false, 0x0101, []uint16{gmref.SuiteGCM}, gmref.SuiteCBC, false},
+			{"GMSSL client offering both, server selects GCM (control)", false, 0x0101, []uint16{gmref.SuiteCBC, gmref.SuiteGCM}, gmref.SuiteGCM, true},
+			{"TLS 1.2 client offering AES-CBC, server selects AES-GCM", true, 0x0303, []uint16{gmref.SuiteAESCBC}, gmref.SuiteAESGCM, false},
+			{"TLS 1.2 client offering AES-GCM, server selects AES-CBC", true, 0x0303, []uint16{gmref.SuiteAESGCM}, gmref.SuiteAESCBC, false},
+			{"TLS 1.2 client offering both, server selects AES-GCM (control)", true, 0x0303, []uint16{gmref.SuiteAESCBC, gmref.SuiteAESGCM}, gmref.SuiteAESGCM, true},
+			{"TLS 1.1 client with AES-CBC and AES-GCM configured (GCM cannot be offered at 1.1), server selects AES-GCM", true, 0x0302, []uint16{gmref.SuiteAESCBC, gmref.SuiteAESGCM}, gmref.SuiteAESGCM, false},
+			{"TLS 1.0 client with AES-CBC and AES-GCM configured, server selects AES-GCM", true, 0x0301, []uint16{gmref.SuiteAESCBC, gmref.SuiteAESGCM}, gmref.SuiteAESGCM, false},
+			{"TLS 1.1 client with the default suite list, server selects AES-GCM", true, 0x0302, nil, gmref.SuiteAESGCM, false},
+			{"TLS 1.1 client, server selects AES-CBC (control)", true, 0x0302, []uint16{gmref.SuiteAESCBC, gmref.SuiteAESGCM}, gmref.SuiteAESCBC, true},
+		}
+		for _, k := range cases {
+			var cc *gmtls.Config
+			id := tlsk.ServerIdentity()
+			if k.tls {
+				cc = &gmtls.Config{RootCAs: p.StdRootsG, ServerName: tlsk.ServerName, Time: tlsk.FixedTime, Rand: wire.NewRand(97), CipherSuites: k.configured, MinVersion: k.ver, MaxVersion: k.ver}
+				id = gmref.Identity{Certs: [][]byte{p.RSA.Certificate[0]}, RSAKey: p.RSAKey}
+			} else {
+				cc = &gmtls.Config{GMSupport: &gmtls.GMSupport{}, RootCAs: p.Roots, ServerName: tlsk.ServerName, Time: tlsk.FixedTime, Rand: wire.NewRand(97), CipherSuites: k.configured}
+			}
+			setup := func(q *gmref.Peer) {
+				if k.tls {
+					q.UseTLSVersion(k.ver)
+				}
+				q.Suites = []uint16{k.serverSelects}
+			}
+			o := tlsk.RunLibVsRef(cc, true, tlsk.LibApp(true), id, 98, setup, &gmref.Script{Data: tlsk.PingPong(false)}, nil)
+			tag := k.name
+			c.Add("executions", 1)
+			c.Add("transitions", 1)
+			c.DistinctS("states", tag)
+			c.Sample(tag)
+			verdict := refdev.MustAbort
+			if k.offered {
+				verdict = refdev.MustComplete
+			}
+			judgeRef(c, refCfg{libIsClient: true, suite: k.serverSelects, tls: k.tls, ver: k.ver}, tag, "unoffered-suite:"+k.name, o, verdict)
+		}
+	}}
+}
+
 func refUnits() []harness.Unit {
 	var u []harness.Unit
 	u = append(u, refTicketHelloUnit(gmtls.GMTLS_ECC_SM4_CBC_SM3), refTicketHelloUnit(gmtls.GMTLS_ECC_SM4_GCM_SM3), refNPNUnit(gmref.SuiteAESCBC), refNPNUnit(gmref.SuiteAESGCM))
@@ -472,9 +537,9 @@ func refUnits() []harness.Unit {
 		for _, suite := range []uint16{gmtls.GMTLS_ECC_SM4_CBC_SM3, gmtls.GMTLS_ECC_SM4_GCM_SM3} {
 			for _, auth := range []bool{false, true} {
 				for f := 0; f < 2; f++ {
-					u = append(u, refSequenceUnit(refCfg{lc, suite, auth, false}, f))
+					u = append(u, refSequenceUnit(refCfg{lc, suite, auth, false, 0}, f))
 				}
-				u = append(u, refMalformedUnit(refCfg{lc, suite, auth, false}), refStraddleUnit(refCfg{lc, suite, auth, false}))
+				u = append(u, refMalformedUnit(refCfg{lc, suite, auth, false, 0}), refStraddleUnit(refCfg{lc, suite, auth, false, 0}))
 			}
 		}
 	}
@@ -482,11 +547,18 @@ func refUnits() []harness.Unit {
 	for _, lc := range []bool{true, false} {
 		for _, suite := range []uint16{gmref.SuiteAESCBC, gmref.SuiteAESGCM} {
 			for _, auth := range []bool{false, true} {
-				r := refCfg{lc, suite, auth, true}
+				r := refCfg{lc, suite, auth, true, 0}
+				u = append(u, refSequenceUnit(r, 0), refSequenceUnit(r, 1), refMalformedUnit(r), refStraddleUnit(r))
+			}
+		}
+		for _, v := range []uint16{0x0301, 0x0302} {
+			for _, auth := range []bool{false, true} {
+				r := refCfg{lc, gmref.SuiteAESCBC, auth, true, v}
 				u = append(u, refSequenceUnit(r, 0), refSequenceUnit(r, 1), refMalformedUnit(r), refStraddleUnit(r))
 			}
 		}
 	}
+	u = append(u, refUnofferedSuiteUnit())
 	return u
 }
 
@@ -668,12 +740,12 @@ func refMalformedUnit(r refCfg) harness.Unit {
 				}
 				// fields are located and perturbed on the message as it is built IN THAT RUN (signature
 				// encodings vary in length from run to run)
-				for _, f := range lengthFields(built, r.tls) {
+				for _, f := range lengthFields(built, r.tls && r.version() == 0x0303) {
 					what := f.what
 					for _, op := range []string{"+1", "-1", "=0", "=max", "+256", "^0x80"} {
 						op := op
 						try(fmt.Sprintf("%s %s", what, op), what, func(m []byte) []byte {
-							for _, g := range lengthFields(m, r.tls) {
+							for _, g := range lengthFields(m, r.tls && r.version() == 0x0303) {
 								if g.what != what {
 									continue
 								}
